@@ -369,9 +369,10 @@ def stepERd (r : Fin n) (s : St n) (x : Var) (b : Bool) : Option (St n) :=
     | _, _ => none
   else none
 
-/-- `EngineMainThread::setOptions` critical section (E.mutex) -/
+/-- `EngineMainThread::setOptions` critical section (E.mutex; P's stores to `search` / `quitFlag` are
+    inside the same mutex, so no store window is open) -/
 def stepEOpts (r : Fin n) (s : St n) (k : Bool) : Option (St n) :=
-  if s.out r = [] ∧ k = s.pend then
+  if s.out r = [] ∧ k = s.pend ∧ s.search.nxt = none ∧ s.quitF.nxt = none then
     match s.pc r with
     | .eOpts1 => some (if k then { s with pend := false } else setPc { s with optsFin := true } r .eS0)
     | .epost => some (if k then { s with pend := false } else setPc { s with optsFin := true } r .eend)
@@ -413,7 +414,8 @@ def stepE (r : Fin n) (s : St n) : Ev n → Option (St n)
                              out := upd s.out r (Out.notify r :: bcast s r .stop) } r .eack) else none
   | .eSearchEnd =>
       -- `search = false` (E.mutex) ; searchStopped.notify_all()
-      if s.out r = [] ∧ s.pc r = .eend then some (setPc { s with search := { s.search with cur := false } } r .ewait) else none
+      if s.out r = [] ∧ s.pc r = .eend ∧ s.search.nxt = none ∧ s.quitF.nxt = none then
+        some (setPc { s with search := { s.search with cur := false } } r .ewait) else none
   | .eQuitSend =>
       -- comm->sendQuit()
       if s.out r = [] ∧ s.pc r = .eQuit0 then
@@ -435,7 +437,7 @@ def stepPWr (s : St n) : Var → Bool → Option (St n)
   | .search, b =>
       -- EngineMainThread::startSearch (E.mutex), only after waitStop() and never after quit
       if s.pOut = [] ∧ s.search.nxt = none ∧ b = true ∧ s.search.cur = false ∧ s.quitF.cur = false ∧ s.quitF.nxt = none then
-        some { s with search := s.search.wr true } else none
+        some { s with search := s.search.wr true, goCount := s.goCount + 1, epoch := s.epoch + 1 } else none
   | .hold, _ => none
 
 /-- the store has happened (`pWd`, logged after it) -/
@@ -450,8 +452,7 @@ def stepPWd (r : Fin n) (s : St n) : Var → Option (St n)
       | some b => some { s with quitF := { s.quitF with cur := b, nxt := none }, pOut := [Out.notify r] }
       | none => none
   | .search => match s.search.nxt with
-      | some b => some { s with search := { s.search with cur := b, nxt := none }, pOut := [Out.notify r],
-                                goCount := s.goCount + 1, epoch := s.epoch + 1 }
+      | some b => some { s with search := { s.search with cur := b, nxt := none }, pOut := [Out.notify r] }
       | none => none
   | .hold => none
 
